@@ -10,6 +10,9 @@ import vbuild  # noqa: E402
 SPEC = os.path.join(VERIF, "spec")
 OUT = os.path.join(VERIF, "out")
 EVID = os.path.join(VERIF, "evidence")
+# runs against a scratch copy of the repository (seeded changes, VERIF_REPO) never touch the evidence of /repo
+if os.path.realpath(os.environ.get("VERIF_REPO", "/repo")) != "/repo":
+    EVID = os.path.join(OUT, "scratch-evidence")
 REPLAYS = os.path.join(EVID, "replays")
 NPROC = int(os.environ.get("VERIF_NPROC", "16"))
 
@@ -156,7 +159,7 @@ def _tlc(args, cwd, timeout, env=None, stdout_path=None, java_opts=None):
     e["JAVA_TOOL_OPTIONS"] = (e.get("JAVA_TOOL_OPTIONS", "") + " " + (java_opts or JAVA_OPTS)).strip()
     if env:
         e.update(env)
-    cmd = ["timeout", str(timeout), "tlc"] + args
+    cmd = ["timeout", str(timeout), "tlc", "-noGenerateSpecTE"] + args
     if stdout_path:
         with open(stdout_path, "w") as f:
             r = subprocess.run(cmd, cwd=cwd, stdout=f, stderr=subprocess.STDOUT, env=e)
